@@ -847,7 +847,11 @@ class Executor:
         if isinstance(v, PyList):
             return len(v.items) > 0
         if isinstance(v, Opaque) and v.what.startswith('sink'):
-            return fresh('bool', 'sink_truth')
+            # one arbitrary truth value per external object kind and path
+            key = 'sinktruth:' + v.what
+            if key not in st.ghost:
+                st.ghost[key] = fresh('bool', 'sink_truth')
+            return st.ghost[key]
         if isinstance(v, (ObjRec, Opaque, ClassVal, Closure, Lib)):
             return True
         if isinstance(v, Arr):
